@@ -111,7 +111,7 @@ pub fn hostile_recipe_strategy(frames: BoxedStrategy<u32>) -> BoxedStrategy<Reci
                     frames,
                     seed,
                     chans: v.into_iter().map(|(kind, wasted, relation)| ChanRecipe { kind, wasted, relation }).collect(),
-                    seg: 0,
+                    seg: 0, ms_mix: 0,
                 },
             )
         })
@@ -145,7 +145,7 @@ pub fn constant_case(i: u64) -> EncCase {
             frames: len,
             seed: i,
             chans: (0..ch).map(|c| ChanRecipe { kind: Kind::Const { which: (which + c) % 4 }, wasted: 0, relation: 0 }).collect(),
-            seg: 0,
+            seg: 0, ms_mix: 0,
         },
         opts: o,
         front: Front::Samples,
@@ -182,7 +182,7 @@ pub fn run(ctx: &Ctx) {
         Tier::Quick => 15_000,
         Tier::Thorough => 600_000,
     };
-    ctx.search(&general, n, || enc_case_strategy(false, 4));
+    ctx.search(&general, n, || prop_oneof![6 => enc_case_strategy(false, 4), 1 => super::c01::tonal_case_strategy()].boxed());
     let constant = Expansion { name: "constant-grid" };
     let total = 7 * 8 * 4 * 7 * 3 * 3;
     ctx.enumerate(&constant, total, |i| Some(constant_case(i)));
